@@ -8,18 +8,13 @@ Definition PTC_ENUMERATED : Z := 2.
 
 Record pfe := { pfe_pfc : Z; pfe_val : Z }.
 
-(* int(round(pfc / 8)) for an int pfc: true division by 8 is exact in binary64 for
-   |pfc| < 2^53 and round() rounds halves to even. *)
-Definition py_round_div8 (pfc : Z) : Z :=
-  let q := pfc / 8 in
-  let r := pfc mod 8 in
-  if r <? 4 then q else if r >? 4 then q + 1 else if Z.even q then q else q + 1.
-
-(* PacketFieldEnum.check_pfc *)
+(* PacketFieldEnum.check_pfc: num_bytes = pfc // 8;
+   `pfc % 8 != 0 or num_bytes not in [1, 2, 4, 8]` -> ValueError *)
 Definition check_pfc (pfc : Z) : res Z :=
-  let num_bytes := py_round_div8 pfc in
-  if (num_bytes =? 1) || (num_bytes =? 2) || (num_bytes =? 4) || (num_bytes =? 8)
-  then Ok num_bytes else Err EValue.
+  let num_bytes := pfc / 8 in
+  if negb (pfc mod 8 =? 0)
+     || negb ((num_bytes =? 1) || (num_bytes =? 2) || (num_bytes =? 4) || (num_bytes =? 8))
+  then Err EValue else Ok num_bytes.
 
 (* PacketFieldEnum.__init__ : the value is not checked *)
 Definition pfe_new (pfc val : Z) : res pfe :=
